@@ -5,6 +5,9 @@ CONSTANTS
   MaxMsgs = 4
   MaxSteps = 12
   FIXED = TRUE
+  ABORTS = FALSE
+  RESETONERR = TRUE
+  EOMCTX = TRUE
   GEN = TRUE
 CONSTRAINT GenPrint
 CHECK_DEADLOCK FALSE
